@@ -41,6 +41,12 @@ def _site(where):
     return '', str(where)
 
 
+def unlisted(obs):
+    """Violations that are not listed as known findings (any property): only these outrank an analysis error."""
+    known = {(k['rule'], k['site'], k['construct']) for k in load_known() if k.get('status') == 'known'}
+    return [o for o in obs if o.status == 'violated' and o.key() not in known]
+
+
 class Results:
     def __init__(self, prop, tier):
         self.prop, self.tier = prop, tier
